@@ -67,6 +67,27 @@ func init() {
 	libEffTable[telemetryPath+"/internal/counter.debugFatalf"] = noEffect
 
 	reg("runtime.KeepAlive", "no effect", nop)
+	reg("runtime.Callers", "0 <= n <= len(pc); writes only into pc", func(fr *Frame, in ssa.Instruction, st *State, args []Value, rt types.Type) Value {
+		s := args[1].(SliceV)
+		fr.havocArg(st, s, 0)
+		n := B.Fresh("callers.n", SBV(64))
+		fr.p.assume(True(), And(BVSle(BVInt(0, 64), n), BVSle(n, s.Len)))
+		return Scalar{n}
+	})
+	reg("runtime.CallersFrames", "returns a non-nil iterator", func(fr *Frame, in ssa.Instruction, st *State, args []Value, rt types.Type) Value {
+		r := B.Fresh("frames", SRef)
+		fr.p.assume(True(), Neq(r, BVInt(0, 64)))
+		return PtrV{Kind: KObj, Elem: rt.Underlying().(*types.Pointer).Elem(), Ref: r, Null: False()}
+	})
+	libEffTable["runtime.CallersFrames"] = noEffect
+	reg("(*runtime.Frames).Next", "returns an arbitrary frame and an arbitrary 'more' flag", func(fr *Frame, in ssa.Instruction, st *State, args []Value, rt types.Type) Value {
+		return fr.freshResult(st, rt, "frames.next")
+	})
+	libEffTable["(*runtime.Frames).Next"] = noEffect
+	reg("(*runtime.Func).FileLine", "returns an arbitrary file and line", func(fr *Frame, in ssa.Instruction, st *State, args []Value, rt types.Type) Value {
+		return fr.freshResult(st, rt, "fileline")
+	})
+	libEffTable["(*runtime.Func).FileLine"] = noEffect
 	libEffTable["runtime.KeepAlive"] = noEffect
 	reg("(*sync.Mutex).Lock", "returns (single thread: no deadlock reasoning)", nop)
 	reg("(*sync.Mutex).Unlock", "returns", nop)
@@ -148,15 +169,29 @@ func init() {
 	libEffTable["(*sync/atomic.Uint32).CompareAndSwap"] = bytesEffect
 	libEffTable["(*sync/atomic.Uint64).CompareAndSwap"] = bytesEffect
 
-	reg("(*sync/atomic.Pointer[T]).Load", "volatile: returns an arbitrary pointer of the element type (possibly nil)", func(fr *Frame, in ssa.Instruction, st *State, args []Value, rt types.Type) Value {
+	reg("(*sync/atomic.Pointer[T]).Load", "volatile: returns an arbitrary pointer of the element type (possibly nil) that satisfies the field's atomic-invariant, if one is declared", func(fr *Frame, in ssa.Instruction, st *State, args []Value, rt types.Type) Value {
 		v := freshValue(rt, "aptr.load")
 		fr.p.assume(True(), fr.p.typeInv(st, rt, v))
+		if ai := fr.p.atomicInvFor(args[0]); ai != nil {
+			fr.p.assume(st.Guard, fr.p.evalAtomicInv(ai, v, rt, st))
+			fr.p.assumedLib["atomic-invariant "+ai.Key+" (checked at every Store/CompareAndSwap of the field, assumed at every Load): "+ai.Src] = true
+		}
 		return v
 	})
 	libEffTable["(*sync/atomic.Pointer[T]).Load"] = noEffect
-	reg("(*sync/atomic.Pointer[T]).Store", "volatile store", nop)
+	reg("(*sync/atomic.Pointer[T]).Store", "volatile store; the stored value must satisfy the field's atomic-invariant", func(fr *Frame, in ssa.Instruction, st *State, args []Value, rt types.Type) Value {
+		if ai := fr.p.atomicInvFor(args[0]); ai != nil && in != nil {
+			t := in.(*ssa.Call).Call.Args[1].Type()
+			fr.p.oblige(fr.siteName(in, "call")+".atomic-inv", "assert", in.Pos(), st.Guard, fr.p.evalAtomicInv(ai, coerceNil(args[1], t), t, st), "value stored into "+ai.Key+" satisfies its invariant: "+ai.Src)
+		}
+		return nil
+	})
 	libEffTable["(*sync/atomic.Pointer[T]).Store"] = noEffect
-	reg("(*sync/atomic.Pointer[T]).CompareAndSwap", "arbitrary outcome", func(fr *Frame, in ssa.Instruction, st *State, args []Value, rt types.Type) Value {
+	reg("(*sync/atomic.Pointer[T]).CompareAndSwap", "arbitrary outcome; the new value must satisfy the field's atomic-invariant", func(fr *Frame, in ssa.Instruction, st *State, args []Value, rt types.Type) Value {
+		if ai := fr.p.atomicInvFor(args[0]); ai != nil && in != nil {
+			t := in.(*ssa.Call).Call.Args[2].Type()
+			fr.p.oblige(fr.siteName(in, "call")+".atomic-inv", "assert", in.Pos(), st.Guard, fr.p.evalAtomicInv(ai, coerceNil(args[2], t), t, st), "value stored into "+ai.Key+" satisfies its invariant: "+ai.Src)
+		}
 		return Scalar{B.Fresh("cas.ok", SBool)}
 	})
 	libEffTable["(*sync/atomic.Pointer[T]).CompareAndSwap"] = noEffect
@@ -216,7 +251,7 @@ func init() {
 			fn := B.DeclareFun("gs."+name, []string{SStr, SStr}, SBV(64))
 			r := B.App(fn, SBV(64), s, sep)
 			m1 := BVInt(-1, 64)
-			p.assume(True(), Or(Eq(r, m1), And(BVSle(BVInt(0, 64), r), BVSle(BVAdd(r, strLen(sep)), strLen(s)),
+			p.assume(True(), Or(Eq(r, m1), And(BVSle(BVInt(0, 64), r), BVSle(r, BVSub(strLen(s), strLen(sep))),
 				Eq(p.strSub(True(), s, r, BVAdd(r, strLen(sep))), sep))))
 			p.assume(True(), Eq(Neq(r, m1), strContains(p, s, sep)))
 			return Scalar{r}
@@ -321,6 +356,28 @@ func init() {
 		libEffTable[k] = noEffect
 	}
 	_ = strings.ToLower
+}
+
+func (p *Proof) atomicInvFor(recv Value) *AtomicInv {
+	pv, ok := recv.(PtrV)
+	if !ok || p.eng.atomicInvs == nil || len(pv.Path) == 0 || pv.RootT == nil {
+		return nil
+	}
+	n, ok := pv.RootT.(*types.Named)
+	if !ok {
+		return nil
+	}
+	ps, _ := pathString(pv.RootT, pv.Path)
+	return p.eng.atomicInvs[n.Obj().Name()+ps]
+}
+
+func (p *Proof) evalAtomicInv(ai *AtomicInv, v Value, t types.Type, st *State) *Term {
+	var pkg *types.Package
+	if sp := p.eng.spkgs[ai.Pkg]; sp != nil {
+		pkg = sp.Pkg
+	}
+	env := &CEnv{p: p, pkg: pkg, fn: p.fn, vars: map[string]cvar{ai.Var: {v, t}}, st: st}
+	return env.evalBool(ai.Expr, ai.Src)
 }
 
 // envStep: before an atomic access to bytes shared with other processes, the environment may have
